@@ -538,8 +538,8 @@ Definition step_tx (s : st) (p : packet) (async : bool) (r : res) : option st :=
   let s' := log_tx s p async r in
   match p with
   | Connect c =>
-    match k_api (k s) with
-    | Some (cn, AConnSend) =>
+    match k_api (k s), k_ppc (k s) with
+    | Some (cn, AConnSend), PNone =>
       if negb async && connect_matches (k_cfg (k s)) c then
         match r with
         | Fail => Some (set_api s' (Some (cn, ACu CU1 false true false false)))
@@ -549,7 +549,7 @@ Definition step_tx (s : st) (p : packet) (async : bool) (r : res) : option st :=
           Some (finish_call (set_k s' kk) cn RetFut)
         end
       else None
-    | _ => None
+    | _, _ => None
     end
   | Disconnect =>
     match k_api (k s) with
